@@ -39,7 +39,9 @@ Inductive out :=
 | OPublish                           (* PublishTx(closeTx) *)
 | ONotify.                           (* NotifyChannelResolved *)
 
-Record stage := mkStage { s_outs : list out; s_rep : option (N * N) }.
+(* s_rep: the reports written INSIDE the checkpoint transaction that ends the
+   stage (checkpointClaim of a two-stage success writes two) *)
+Record stage := mkStage { s_outs : list out; s_rep : list (N * N) }.
 Record rspec := mkSpec { r_key : N; r_stages : list stage }.
 
 Record scen := mkScen {
@@ -260,8 +262,7 @@ Definition main_step (sc : scen) (s : st) : st :=
     end
   end.
 
-Definition add_rep (l : list (N * N)) (o : option (N * N)) : list (N * N) :=
-  match o with Some x => l ++ [x] | None => l end.
+Definition add_rep (l : list (N * N)) (o : list (N * N)) : list (N * N) := l ++ o.
 
 (* one micro step of the resolver goroutine of key k *)
 Definition res_step (sc : scen) (s : st) (k : N) : st :=
@@ -338,8 +339,7 @@ Definition resolver_outs (sc : scen) : list out :=
   flat_map (fun r => flat_map s_outs (r_stages r)) (sc_resolvers sc).
 
 Definition resolver_reps (sc : scen) : list (N * N) :=
-  flat_map (fun r => flat_map (fun g => match s_rep g with Some x => [x] | None => [] end)
-                              (r_stages r)) (sc_resolvers sc).
+  flat_map (fun r => flat_map s_rep (r_stages r)) (sc_resolvers sc).
 
 (* upstream resolutions, final outcomes and the resolved notification of
    the uninterrupted run *)
